@@ -31,10 +31,6 @@ theorem char_eq_lf (c : Char) : (c == '\n') = (c.toNat == 10) := by
 def isLFu (u : Nat) : Bool := u == 10
 def isLFc (c : Char) : Bool := c == '\n'
 
-/-- a code unit is harmless for the byte-level line search: it is U+000A itself or neither of
-its bytes is 0x0A. -/
-def okUnit (u : Nat) : Bool := u == 10 || (u % 256 != 10 && (u / 256) % 256 != 10)
-
 /-- the lines of a text: cut after every U+000A. -/
 def textLines (t : Str) : List Str := linesBy isLFc t
 
@@ -44,63 +40,186 @@ theorem map_consHead {α β : Type} (f : List α → List β) (a : α) (L : List
       | l :: ls => f (a :: l) :: ls.map f := by
   cases L <;> rfl
 
-theorem rawLinesLE_units (us : List Nat) (h : us.all okUnit = true) :
-    rawLinesLE (us.flatMap (unitBytes true)) = (linesBy isLFu us).map (fun l => l.flatMap (unitBytes true)) ∧
-    leDangling (us.flatMap (unitBytes true)) = false := by
-  induction us with
-  | nil => simp [rawLinesLE, leDangling, linesBy]
-  | cons u us ih =>
-    simp only [List.all_cons, Bool.and_eq_true] at h
-    obtain ⟨i1, i2⟩ := ih h.2
-    have hu := h.1
-    simp only [List.flatMap_cons, unitBytes, if_true, List.cons_append, List.nil_append, rawLinesLE, leDangling,
-      ofNat_beq_lf, Nat.mod_mod, linesBy, isLFu]
-    by_cases h10 : u = 10
-    · subst h10
-      simp [i1, i2, unitBytes]
-    · have hlo : (u % 256 == 10) = false := by
-        simp only [okUnit, Bool.or_eq_true, beq_iff_eq, h10, false_or, Bool.and_eq_true, bne_iff_ne] at hu
-        simpa using hu.1
-      have hhi : (u / 256 % 256 == 10) = false := by
-        simp only [okUnit, Bool.or_eq_true, beq_iff_eq, h10, false_or, Bool.and_eq_true, bne_iff_ne] at hu
-        simpa using hu.2
-      have h10' : (u == 10) = false := by simpa using h10
-      simp only [hlo, h10', Bool.false_eq_true, if_false]
-      refine ⟨?_, ?_⟩
-      · -- two bytes pushed onto the first line
-        have e : rawLinesLE (UInt8.ofNat (u / 256) :: List.flatMap (unitBytes true) us) =
-            consHead (UInt8.ofNat (u / 256)) (rawLinesLE (List.flatMap (unitBytes true) us)) := by
-          cases hr : List.flatMap (unitBytes true) us <;> simp [rawLinesLE, ofNat_beq_lf, hhi]
-        rw [e, i1, map_consHead]
-        cases linesBy isLFu us <;> simp [consHead, unitBytes]
-      · have e : leDangling (UInt8.ofNat (u / 256) :: List.flatMap (unitBytes true) us) =
-            leDangling (List.flatMap (unitBytes true) us) := by
-          cases hr : List.flatMap (unitBytes true) us <;> simp [leDangling, ofNat_beq_lf, hhi]
-        rw [e, i2]
+theorem ofNat_beq_zero (n : Nat) : (UInt8.ofNat n == 0) = (n % 256 == 0) := by
+  rw [Bool.eq_iff_iff]
+  simp only [beq_iff_eq]
+  rw [← UInt8.toNat_inj, UInt8.toNat_ofNat']
+  simp
 
-theorem rawLines_units (us : List Nat) (h : us.all okUnit = true) :
-    rawLines (us.flatMap (unitBytes false)) = (linesBy isLFu us).map (fun l => l.flatMap (unitBytes false)) := by
+def enc16 (le : Bool) : Encoding := if le then .utf16le else .utf16be
+
+theorem flatMap_unitBytes_even (le : Bool) (us : List Nat) : (us.flatMap (unitBytes le)).length % 2 = 0 := by
   induction us with
-  | nil => simp [rawLines, linesBy]
+  | nil => rfl
   | cons u us ih =>
-    simp only [List.all_cons, Bool.and_eq_true] at h
-    have i1 := ih h.2
-    have hu := h.1
-    unfold rawLines at i1 ⊢
-    simp only [List.flatMap_cons, unitBytes, Bool.false_eq_true, if_false, List.cons_append, List.nil_append,
-      linesBy, isLFb, ofNat_beq_lf, Nat.mod_mod, isLFu]
-    by_cases h10 : u = 10
-    · subst h10
-      simp [i1, consHead, unitBytes]
-    · have hlo : (u % 256 == 10) = false := by
-        simp only [okUnit, Bool.or_eq_true, beq_iff_eq, h10, false_or, Bool.and_eq_true, bne_iff_ne] at hu
-        simpa using hu.1
-      have hhi : (u / 256 % 256 == 10) = false := by
-        simp only [okUnit, Bool.or_eq_true, beq_iff_eq, h10, false_or, Bool.and_eq_true, bne_iff_ne] at hu
-        simpa using hu.2
-      have h10' : (u == 10) = false := by simpa using h10
-      simp only [hlo, hhi, h10', Bool.false_eq_true, if_false, i1, map_consHead]
-      cases linesBy isLFu us <;> simp [consHead, unitBytes]
+    have : (unitBytes le u).length = 2 := by cases le <;> simp [unitBytes]
+    simp only [List.flatMap_cons, List.length_append, this]
+    omega
+
+/-- UTF-16LE: code units other than U+000A never end the line, whatever bytes they contain. -/
+theorem scanLE_units_skip (buf : List UInt8) (l : List Nat) (x : List UInt8) (hb : buf.length % 2 = 0)
+    (hl : ∀ u ∈ l, u < 65536 ∧ isLFu u = false) :
+    scanLE buf (l.flatMap (unitBytes true) ++ x) = scanLE (buf ++ l.flatMap (unitBytes true)) x := by
+  induction l generalizing buf with
+  | nil => simp
+  | cons u l ih =>
+    obtain ⟨hu, h10⟩ := hl u (by simp)
+    have h10' : u ≠ 10 := by simpa [isLFu] using h10
+    have ih' := fun b hb => ih b hb (fun v hv => hl v (by simp [hv]))
+    simp only [List.flatMap_cons, unitBytes, if_true, List.cons_append, List.nil_append]
+    by_cases hlo : u % 256 = 10
+    · -- the low byte is 0x0A at an even index, but the byte after it is not 0x00
+      have hhi : ¬ u / 256 % 256 = 0 := by omega
+      have e : scanLE buf (UInt8.ofNat (u % 256) :: UInt8.ofNat (u / 256) :: (l.flatMap (unitBytes true) ++ x)) =
+          scanLE (buf ++ [UInt8.ofNat (u % 256), UInt8.ofNat (u / 256)]) (l.flatMap (unitBytes true) ++ x) := by
+        simp [scanLE, ofNat_beq_zero, hlo, hb, hhi]
+      rw [e, ih' _ (by simp; omega)]
+      simp
+    · have e : scanLE buf (UInt8.ofNat (u % 256) :: UInt8.ofNat (u / 256) :: (l.flatMap (unitBytes true) ++ x)) =
+          scanLE (buf ++ [UInt8.ofNat (u % 256), UInt8.ofNat (u / 256)]) (l.flatMap (unitBytes true) ++ x) := by
+        have hodd : ¬ (buf.length + 1) % 2 = 0 := by omega
+        cases hr : l.flatMap (unitBytes true) ++ x <;> simp [scanLE, ofNat_beq_lf, hlo, hodd]
+      rw [e, ih' _ (by simp; omega)]
+      simp
+
+theorem scanLE_lf (buf x : List UInt8) (hb : buf.length % 2 = 0) :
+    scanLE buf (unitBytes true 10 ++ x) = (buf ++ unitBytes true 10, x) := by
+  simp [unitBytes, scanLE, hb]
+
+/-- UTF-16BE likewise. -/
+theorem scanBE_units_skip (buf : List UInt8) (l : List Nat) (x : List UInt8) (hb : buf.length % 2 = 0)
+    (hl : ∀ u ∈ l, u < 65536 ∧ isLFu u = false) :
+    scanBE buf (l.flatMap (unitBytes false) ++ x) = scanBE (buf ++ l.flatMap (unitBytes false)) x := by
+  induction l generalizing buf with
+  | nil => simp
+  | cons u l ih =>
+    obtain ⟨hu, h10⟩ := hl u (by simp)
+    have h10' : u ≠ 10 := by simpa [isLFu] using h10
+    have ih' := fun b hb => ih b hb (fun v hv => hl v (by simp [hv]))
+    simp only [List.flatMap_cons, unitBytes, Bool.false_eq_true, if_false, List.cons_append, List.nil_append]
+    have c1 : (buf.length % 2 == 1) = false := by simp; omega
+    have c2 : (UInt8.ofNat (u % 256) == 0x0A &&
+        ((buf ++ [UInt8.ofNat (u / 256)]).length % 2 == 1 &&
+          (buf ++ [UInt8.ofNat (u / 256)]).getLast? == some 0)) = false := by
+      rw [ofNat_beq_lf, Nat.mod_mod]
+      by_cases hlo : u % 256 = 10
+      · have hhi : (UInt8.ofNat (u / 256) == 0) = false := by
+          rw [ofNat_beq_zero]; simp; omega
+        simp [hhi]
+      · simp [hlo]
+    have e : scanBE buf (UInt8.ofNat (u / 256) :: UInt8.ofNat (u % 256) :: (l.flatMap (unitBytes false) ++ x)) =
+        scanBE (buf ++ [UInt8.ofNat (u / 256), UInt8.ofNat (u % 256)]) (l.flatMap (unitBytes false) ++ x) := by
+      rw [scanBE, c1]
+      simp only [Bool.false_and, Bool.and_false, Bool.false_eq_true, if_false]
+      rw [scanBE, c2]
+      simp
+    rw [e, ih' _ (by simp; omega)]
+    simp
+
+theorem scanBE_lf (buf x : List UInt8) (hb : buf.length % 2 = 0) :
+    scanBE buf (unitBytes false 10 ++ x) = (buf ++ unitBytes false 10, x) := by
+  have h1 : (buf.length + 1) % 2 = 1 := by omega
+  have h0 : ¬ buf.length % 2 = 1 := by omega
+  simp [unitBytes, scanBE, h1]
+
+theorem scan16_units_skip (le : Bool) (l : List Nat) (x : List UInt8)
+    (hl : ∀ u ∈ l, u < 65536 ∧ isLFu u = false) :
+    (if le then scanLE [] (l.flatMap (unitBytes le) ++ x) else scanBE [] (l.flatMap (unitBytes le) ++ x)) =
+      (if le then scanLE (l.flatMap (unitBytes le)) x else scanBE (l.flatMap (unitBytes le)) x) := by
+  cases le with
+  | true => simpa using scanLE_units_skip [] l x rfl hl
+  | false => simpa using scanBE_units_skip [] l x rfl hl
+
+/-- `read_line` on an aligned stream of UTF-16 code units cuts exactly after the first U+000A unit. -/
+theorem rawSpec_units (le : Bool) (us : List Nat) (h : ∀ u ∈ us, u < 65536) :
+    rawSpec (enc16 le) (us.flatMap (unitBytes le)) none =
+      match splitG isLFu us with
+      | (p, some rest) => (.ok (some (p.flatMap (unitBytes le))), rest.flatMap (unitBytes le))
+      | (p, none) => (if p.isEmpty then .ok none else .ok (some (p.flatMap (unitBytes le))), []) := by
+  unfold enc16
+  rw [rawSpec_utf16]
+  cases hs : splitG isLFu us with
+  | mk p o =>
+    cases o with
+    | some rest =>
+      obtain ⟨p', x, e1, e2, e3, e4⟩ := splitG_some_form _ _ _ _ hs
+      have hx : x = 10 := by simpa [isLFu] using e2
+      subst hx
+      have hl : ∀ u ∈ p', u < 65536 ∧ isLFu u = false := fun u hu =>
+        ⟨h u (by rw [e4, e1]; simp [hu]), e3 u hu⟩
+      have hev := flatMap_unitBytes_even le p'
+      have hbytes : us.flatMap (unitBytes le) =
+          p'.flatMap (unitBytes le) ++ (unitBytes le 10 ++ rest.flatMap (unitBytes le)) := by
+        rw [e4, e1]; simp [List.flatMap_append]
+      have hsc := scan16_units_skip le p' (unitBytes le 10 ++ rest.flatMap (unitBytes le)) hl
+      rw [← hbytes] at hsc
+      have hne : (p.flatMap (unitBytes le)).isEmpty = false := by
+        rw [e1]; cases le <;> simp [List.flatMap_append, unitBytes]
+      have hp : p.flatMap (unitBytes le) = p'.flatMap (unitBytes le) ++ unitBytes le 10 := by
+        rw [e1]; simp [List.flatMap_append]
+      cases le with
+      | true =>
+        simp only [if_true] at hsc ⊢
+        rw [hsc, scanLE_lf _ _ hev, ← hp]
+        simp [hne]
+      | false =>
+        simp only [Bool.false_eq_true, if_false] at hsc ⊢
+        rw [hsc, scanBE_lf _ _ hev, ← hp]
+        simp [hne]
+    | none =>
+      obtain ⟨e1, e2⟩ := splitG_none_form _ _ _ hs
+      subst e1
+      have hl : ∀ u ∈ p, u < 65536 ∧ isLFu u = false := fun u hu => ⟨h u hu, e2 u hu⟩
+      have hsc := scan16_units_skip le p [] hl
+      simp only [List.append_nil] at hsc
+      have hem : (p.flatMap (unitBytes le)).isEmpty = p.isEmpty := by
+        cases p with
+        | nil => rfl
+        | cons a as => cases le <;> simp [unitBytes]
+      cases le with
+      | true =>
+        simp only [if_true] at hsc ⊢
+        rw [hsc]; simp [scanLE, hem]
+      | false =>
+        simp only [Bool.false_eq_true, if_false] at hsc ⊢
+        rw [hsc]; simp [scanBE, hem]
+
+/-- **UTF-16, both byte orders, every aligned unit stream:** the lines are the decoded,
+end-trimmed unit-level lines; no error. -/
+theorem linesSpec_units (le : Bool) (us : List Nat) (h : ∀ u ∈ us, u < 65536) :
+    linesSpec (enc16 le) none (us.flatMap (unitBytes le)) =
+      ((linesBy isLFu us).map (fun l => currLine (enc16 le) (l.flatMap (unitBytes le))), none) := by
+  suffices hs : ∀ n, ∀ us : List Nat, us.length ≤ n → (∀ u ∈ us, u < 65536) →
+      linesSpec (enc16 le) none (us.flatMap (unitBytes le)) =
+        ((linesBy isLFu us).map (fun l => currLine (enc16 le) (l.flatMap (unitBytes le))), none) from
+    hs _ us (Nat.le_refl _) h
+  intro n
+  induction n with
+  | zero =>
+    intro us hl _
+    have : us = [] := List.eq_nil_of_length_eq_zero (by omega)
+    subst this
+    simp [linesSpec_nil, linesBy]
+  | succ n ih =>
+    intro us hl hu
+    rw [linesSpec_unfold, linesBy_splitG, rawSpec_units le us hu]
+    cases hs : splitG isLFu us with
+    | mk p o =>
+      cases o with
+      | some rest =>
+        obtain ⟨p', x, e1, _, _, e4⟩ := splitG_some_form _ _ _ _ hs
+        have hlen : rest.length ≤ n := by
+          have : us.length = p.length + rest.length := by rw [e4]; simp
+          have : 0 < p.length := by rw [e1]; simp
+          omega
+        simp only []
+        rw [ih rest hlen (fun u hu' => hu u (by rw [e4]; simp [hu']))]
+        simp
+      | none =>
+        simp only []
+        by_cases hp : p.isEmpty = true
+        · simp [hp]
+        · simp [hp, linesSpec_nil]
 
 /-- the unit-level lines of a text are the units of its lines. -/
 theorem linesBy_utf16Units (t : Str) :
